@@ -20,7 +20,7 @@ RULE = ("Hypothesis-generated molecules (H2 sto-3g/6-31g, H3, H4 chain/ring/gene
         "non-zero / cyclic patterns, encodings jw/bk/scbk/jkmn in all spellings, both orderings, spin-summed and "
         "spin-resolved forms). Oracles: the solver's own energy (and, for VQE, <psi|H|psi> of the reference simulation); "
         "independent contraction of the (padded) matrices with integrals built from PySCF AO integrals; directly evaluated "
-        "<a+_p a_q>, <a+_p a+_q a_r a_s> on the Jordan-Wigner state. Part history: freeze_mos(other, inplace=False) copies (also chained, same and different active size) solved and contracted after energy_from_rdms was already called on the parent, parent re-checked afterwards; one VQE solver asked for RDMs at several parameter vectors in a row (HEA complex states included). Non-trivial = at least one frozen orbital, or an open "
+        "<a+_p a_q>, <a+_p a+_q a_r a_s> on the Jordan-Wigner state. Part history: freeze_mos(other, inplace=False) copies (also chained, same and different active size) solved and contracted after energy_from_rdms was already called on the parent, parent re-checked afterwards; one VQE solver asked for RDMs at several parameter vectors and forms in a row (spin-resolved frequent, get_rdm_uhf, HEA complex states), every returned pair kept with an immediate copy and re-compared bit for bit after each later call; one FCI / CCSD solver object re-used after the mo_coeff of the molecule was replaced through the public setter by an energy-invariant rotation (full active space for FCI, occupied-occupied and virtual-virtual for CCSD), compared with a fresh solver and the pre-rotation energy (re-use of the CAS branch of FCISolverPySCF is not asserted: it builds its integrals at construction on the unchanged tree). Non-trivial = at least one frozen orbital, or an open "
         "shell, or (VQE) a non-zero parameter vector. Distinct = distinct canonical JSON of the case.")
 ASSUMPTIONS = ["numpy dense linear algebra", "PySCF AO integrals, SCF, FCI / CCSD / MP2 kernels are the solvers under the Tangelo wrappers; their energies are the reference the RDM contraction is compared with",
                "reference simulator and Pauli matrices in vlib/refsim.py, Fock-space ladder matrices in vlib/refops.py, integral transformation in vlib/refchem.py (self-tested)",
@@ -474,7 +474,7 @@ def mol_history_cases(draw):
     return {"mol": mol, "solver": solver, "alts": alts, "chain": draw(st.booleans())}
 
 
-@part("history", quick=60, thorough=2000)
+@part("history", quick=96, thorough=3000)
 def history(ctx):
     def solve(mol, which):
         from tangelo.algorithms.classical import FCISolver, CCSDSolver
@@ -539,16 +539,19 @@ def history(ctx):
                 labels.add("chained-copies")
         return n_copies > 0, labels
 
-    ctx.search("history_mol", mol_history_cases(), body, frac=0.6)
+    ctx.search("history_mol", mol_history_cases(), body, frac=0.4)
 
-    # one VQE solver, several parameter vectors in a row (repeats included)
+    # one VQE solver, several parameter vectors in a row (repeats included); every returned pair is kept and must stay
+    # what it was when later calls are made
     @st.composite
     def vqe_history_cases(draw):
-        c = draw(vqe_cases(("rhf", "rohf")))
+        uhf = draw(st.integers(0, 3)) == 0
+        c = draw(vqe_cases(("uhf",) if uhf else ("rhf", "rohf")))
         c["ansatz"] = draw(st.sampled_from(["HEA", "HEA", "UCCSD"]))
         c["aopts"] = {"n_layers": draw(st.integers(1, 2)), "rot_type": "euler"} if c["ansatz"] == "HEA" else {}
         c["pool"] = [draw(H.theta_specs(allow_zero_vector=False)) for _ in range(2)]
-        c["seq"] = draw(st.lists(st.integers(0, 1), min_size=2, max_size=4))
+        # calls: [index into the pool, sum_spin]; spin-resolved form frequent
+        c["seq"] = [[draw(st.integers(0, 1)), draw(st.sampled_from([False, False, True]))] for _ in range(draw(st.integers(2, 4)))]
         return c
 
     def body_vqe(case):
@@ -562,37 +565,152 @@ def history(ctx):
         solver = VQESolver(opts)
         solver.build()
         thetas = [np.array(H.theta_vector(sp, solver.ansatz.n_var_params), dtype=float) for sp in case["pool"]]
-        labels = {f"ansatz={case['ansatz']}", f"mapping={case['mapping'].upper()}"}
+        labels = {f"ansatz={case['ansatz']}", f"mapping={case['mapping'].upper()}", "ref=" + mol_kind(mcase)}
         jw = case["mapping"].upper() == "JW"
-        for pos, k in enumerate(case["seq"]):
+        kept = []        # (call number, form, returned arrays (flat list), independent copies)
+
+        def flat(g1, g2):
+            return (list(g1) + list(g2)) if mol.uhf else [g1, g2]
+
+        for pos, (k, sum_spin) in enumerate(case["seq"]):
             th = thetas[k]
-            g1, g2 = solver.get_rdm(th, sum_spin=True)
+            if mol.uhf:
+                form = "uhf"
+                g1, g2 = solver.get_rdm_uhf(th)
+            else:
+                form = "spin-summed" if sum_spin else "spin-resolved"
+                g1, g2 = solver.get_rdm(th, sum_spin=sum_spin)
+            labels.add("form=" + form)
             psi, n = H.run_circuits([solver.ansatz.circuit], n=H.op_n_qubits(solver.qubit_hamiltonian.terms))
             e_ref, _ = H.expectation(solver.qubit_hamiltonian.terms, psi, n)
-            e_r = mol.energy_from_rdms(g1, g2)
+            if form == "spin-resolved":
+                m = mol.n_active_sos
+                t1 = g1.reshape(m // 2, 2, m // 2, 2).sum(axis=(1, 3))
+                t2 = g2.reshape(m // 2, 2, m // 2, 2, m // 2, 2, m // 2, 2).sum(axis=(1, 3, 5, 7))
+            else:
+                t1, t2 = g1, g2
+            e_r = mol.energy_from_rdms(t1, t2)
             if abs(e_r - e_ref.real) > TOL_VQE:
-                raise Fail(f"call {pos} (theta #{k}): energy_from_rdms = {e_r!r}, <psi|H|psi> = {e_ref.real!r}", sig="history:vqe-rdm:energy")
-            if herm_defect(g1, g2) > TOL_H:
-                raise Fail(f"call {pos} (theta #{k}): spin-summed matrices are not Hermitian ({herm_defect(g1, g2)})", sig="history:vqe-rdm:hermiticity")
-            if jw:
-                s1, s2 = solver.get_rdm(th, sum_spin=False)
+                raise Fail(f"call {pos} (theta #{k}, {form}): energy_from_rdms = {e_r!r}, <psi|H|psi> = {e_ref.real!r}", sig="history:vqe-rdm:energy")
+            if not mol.uhf and herm_defect(g1, g2) > TOL_H:
+                raise Fail(f"call {pos} (theta #{k}, {form}): matrices are not Hermitian ({herm_defect(g1, g2)})", sig="history:vqe-rdm:hermiticity")
+            if mol.uhf:
+                check_hermitian(mol, g1, g2, "history:vqe-rdm-uhf")
+            if jw and form == "spin-resolved":
                 ex = fermion_expectations_jw(mol, psi, n, case["utd"])
-                d1, d2 = np.zeros_like(s1), np.zeros_like(s2)
+                d1, d2 = np.zeros_like(g1), np.zeros_like(g2)
                 for key, v in ex.items():
                     if len(key) == 2:
                         d1[key[0][0], key[1][0]] += v
                     else:
-                        p, q, r, s = (x[0] for x in key)
-                        d2[p, s, q, r] += v
-                dev = max(float(np.max(np.abs(d1 - s1))), float(np.max(np.abs(d2 - s2))))
+                        p, q, r, s_ = (x[0] for x in key)
+                        d2[p, s_, q, r] += v
+                dev = max(float(np.max(np.abs(d1 - g1))), float(np.max(np.abs(d2 - g2))))
                 if dev > 1e-8:
                     raise Fail(f"call {pos} (theta #{k}): JW spin-resolved matrices deviate by {dev} from directly evaluated <a+ a>, <a+ a+ a a>",
                                sig="history:vqe-rdm:direct-evaluation")
                 labels.add("jw-direct")
+            # results handed out earlier belong to the caller: they must still be what they were
+            for pos0, form0, arrs, copies in kept:
+                if not all(np.array_equal(a, b) for a, b in zip(arrs, copies)):
+                    raise Fail(f"matrices returned by call {pos0} ({form0}) changed during call {pos} ({form})", sig="history:vqe-rdm:earlier-result-changed")
+                if any(a is b for a in arrs for b in flat(g1, g2)):
+                    raise Fail(f"call {pos} ({form}) returned the same array object as call {pos0} ({form0})", sig="history:vqe-rdm:earlier-result-changed")
+            if kept:
+                labels.add("earlier-results-recompared")
+            kept.append((pos, form, flat(g1, g2), [np.array(a, copy=True) for a in flat(g1, g2)]))
             if float(np.max(np.abs(np.imag(psi)))) > 1e-6:
                 labels.add("complex-amplitudes")
-        if len(set(case["seq"])) < len(case["seq"]):
+        forms = [f for _, f, _, _ in kept]
+        if forms.count("spin-resolved") >= 2:
+            labels.add("two-spin-resolved-calls")
+        if len({k for k, _ in case["seq"]}) < len(case["seq"]):
             labels.add("repeated-theta")
         return True, labels
 
-    ctx.search("history_vqe", vqe_history_cases(), body_vqe, frac=0.4)
+    ctx.search("history_vqe", vqe_history_cases(), body_vqe, frac=0.3)
+
+    # one classical solver object used again after the molecule's orbitals were changed through the public setter
+    @st.composite
+    def reuse_cases(draw):
+        solver = draw(st.sampled_from(["FCI", "FCI", "CCSD"]))
+        mol = draw(H.molecules(max_active=5, min_active=2, refs=("rhf", "rohf"), frozen_prob=0.5))
+        g = st.tuples(st.integers(0, 7), st.integers(0, 7), st.floats(-3.1, 3.1).map(lambda x: round(x, 3)))
+        return {"mol": mol, "solver": solver, "givens": [list(x) for x in draw(st.lists(g, min_size=1, max_size=5))]}
+
+    def rotate(mo, cols, givens):
+        """columns `cols` of mo times a product of plane rotations (indices taken modulo len(cols))"""
+        mo = np.array(mo, dtype=float, copy=True)
+        k = len(cols)
+        U = np.eye(k)
+        for i, j, th in givens:
+            if k < 2:
+                continue
+            i, j = i % k, (j % k if j % k != i % k else (i + 1) % k)
+            G = np.eye(k)
+            G[i, i] = G[j, j] = np.cos(th)
+            G[i, j], G[j, i] = -np.sin(th), np.sin(th)
+            U = U @ G
+        mo[:, cols] = mo[:, cols] @ U
+        return mo, float(np.max(np.abs(U - np.eye(k)))) > 1e-6
+
+    def body_reuse(case):
+        from tangelo.algorithms.classical import FCISolver, CCSDSolver
+        mcase = case["mol"]
+        mol = H.get_molecule(mcase, ctx.rec, fresh=True)          # private mean field: mo_coeff is going to be replaced
+        which = case["solver"]
+        tol = TOL_E if which == "FCI" else TOL_CC
+        labels = mol_labels(mcase, mol) | {"solver=" + which}
+
+        def run(sol, what):
+            e = sol.simulate()
+            g1, g2 = sol.get_rdm()
+            if which == "CCSD" and not (sol.solver.cc_fragment.converged and sol.solver.cc_fragment.converged_lambda):
+                return None
+            e_r = mol.energy_from_rdms(g1, g2)
+            if abs(e_r - e) > tol:
+                raise Fail(f"{what}: energy_from_rdms with the molecule's current orbitals = {e_r!r}, solver energy {e!r}", sig=f"history:{what}:energy")
+            tr = float(np.real(np.trace(g1)))
+            if abs(tr - mol.n_active_electrons) > 1e-7:
+                raise Fail(f"{what}: tr gamma = {tr}", sig=f"history:{what}:trace")
+            check_hermitian(mol, g1, g2, f"history:{what}")
+            if mol.frozen_mos is not None:
+                pad_and_check(mol, mcase, g1, g2, e, tol, f"history:{what}")
+            else:
+                check_full_space(mol, mcase, g1, g2, e, tol, f"history:{what}")
+            return e
+
+        ne, n_act = mol.n_active_electrons, mol.n_active_mos
+        if which == "CCSD" and (ne < 2 or n_act < 2):
+            raise Skip("CCSD needs at least two electrons in two orbitals")
+        sol = (FCISolver if which == "FCI" else CCSDSolver)(mol)
+        e0 = run(sol, "solver-first-run")
+        if e0 is None:
+            raise Skip("CCSD not converged")
+        if which == "FCI":
+            new, moved = rotate(mol.mo_coeff, list(mol.active_mos), case["givens"])      # FCI: any rotation of the active space
+        else:
+            # CCSD is invariant under rotations among doubly occupied and among virtual active orbitals
+            docc = [i for i in mol.active_occupied if mol.mo_occ[i] == 2]
+            new, m1 = rotate(mol.mo_coeff, docc, case["givens"])
+            new, m2 = rotate(new, list(mol.active_virtual), case["givens"])
+            moved = m1 or m2
+        mol.mo_coeff = new
+        labels.add("orbitals-rotated" if moved else "rotation-trivial")
+        # re-use after a setter change is what the unchanged tree supports for the full-space FCI branch and for CCSD (both
+        # read the shared mean field at simulate()); the CAS branch of FCISolverPySCF builds its integrals at construction
+        reuse_supported = not (which == "FCI" and mol.frozen_mos is not None)
+        if reuse_supported:
+            e1 = run(sol, "solver-reused-after-mo_coeff-change")
+            if e1 is not None and abs(e1 - e0) > tol:
+                raise Fail(f"re-used solver: energy {e1!r} after an invariant rotation, {e0!r} before", sig="history:solver-reused:energy-changed")
+            labels.add("solver-reused")
+        else:
+            labels.add("fci-cas-reuse-not-asserted")
+        fresh_sol = (FCISolver if which == "FCI" else CCSDSolver)(mol)
+        e2 = run(fresh_sol, "fresh-solver-after-mo_coeff-change")
+        if e2 is not None and abs(e2 - e0) > tol:
+            raise Fail(f"fresh solver: energy {e2!r} after an invariant rotation, {e0!r} before", sig="history:fresh-solver:energy-changed")
+        return moved, labels
+
+    ctx.search("history_reuse", reuse_cases(), body_reuse, frac=0.3)
